@@ -17,6 +17,7 @@ struct vp_in {
     struct vp_backend_script bs;
     uint8_t garbage[8];
     struct vp_rx_script rx;
+    int32_t txerr; /* MODE_TXERR: what the transmitting side reports for every frame */
 };
 VP_DECLARE_INPUT();
 
@@ -72,6 +73,40 @@ void harness(void)
     VP_WITNESS(in.rx.err_after >= 13 && !in.alloc_fails && vp_al.frees == 1, "C09.srcerr.block-freed.reach");
 #endif
     VP_WITNESS(in.rx.err_after == 0, "C09.srcerr.nothing-received.reach");
+    return;
+#elif defined(MODE_TXERR)
+    /* the transmitter fails: whatever regp_recv/regp_process try to send is
+     * refused with in.txerr. The documented loop goes on regardless:
+     *   rc = regp_recv(); [error handling]; regp_process(); regp_free(mf.frame) */
+    VP_ASSUME(in.txerr < 0);
+    vp_tx_err = in.txerr;
+    vp_rx.err_after = 0xff;
+    RPMaybeFrame mf;
+    const int rc = regp_recv(&vp_p, &mf);
+    const unsigned sent_by_recv = vp_tx_frames;
+    VP_ASSERT(rc == 0 || rc == in.txerr, "C09.txerr.recv-returns-zero-or-the-sink-error");
+    const bool executed_by_recv = vp_bl.calls != 0;
+    VP_ASSERT(!executed_by_recv, "C09.txerr.recv-never-touches-memory");
+    const int rcp = regp_process(&vp_p, &mf);
+    VP_ASSERT(rcp == 0 || rcp == in.txerr, "C09.txerr.process-returns-zero-or-the-sink-error");
+    if (mf.error.id != 0)
+        VP_ASSERT(vp_bl.calls == 0, "C09.txerr.failed-reception-never-executed");
+    if (len > 0 && len <= KEXTRA && !in.alloc_fails) {
+        struct ref_frame rf = { 0 };
+        const int verdict = ref_classify(vp_rx.oct, len, &rf);
+        if (verdict != REF_OK && verdict != REF_SIZE_EITHER)
+            VP_ASSERT(vp_bl.calls == 0, "C09.txerr.frame-failing-the-independent-reading-never-executed");
+        VP_WITNESS(verdict == REF_BADHDCRC && sent_by_recv == 1 && rc == in.txerr, "C09.txerr.meta-send-fails.reach");
+        VP_WITNESS(verdict == REF_OK && vp_bl.calls == 1 && rcp == in.txerr, "C09.txerr.executed-reply-fails.reach");
+    } else {
+        VP_ASSERT(vp_bl.calls == 0, "C09.txerr.oversized-empty-or-busy-never-executed");
+    }
+    regp_free(&vp_p, mf.frame);
+    VP_ASSERT(vp_ledger_balanced(), "C09.txerr.every-block-released-exactly-once");
+    VP_ASSERT(vp_al.frees == vp_al.granted, "C09.txerr.ledger-counts");
+#if KEXTRA >= 14 && KEXTRA < LMAX && (!defined(ALLOC_FAILS) || !ALLOC_FAILS)
+    VP_WITNESS(len > KEXTRA && sent_by_recv == 1 && rc == in.txerr, "C09.txerr.overflow-reply-fails.reach");
+#endif
     return;
 #else
     vp_rx.err_after = 0xff;
